@@ -4,6 +4,7 @@ from props import common, mix, disp
 
 THM = "NextestModel.Thm.C01"
 GEN = ["tables"]
+GEN_GROUPS = ["exit"]
 TRUSTED = ["model: Model/Dispatcher (Stats, summarize, exitCode); exec_run's final match and the exit-code constants are regenerated from the source (Gen.Tables)",
            "reporting failures are outside the model (the property's own proviso)"]
 ASSUMPTIONS = ["the real process exit status under real runs is exercised by the end-to-end engine when available; this check covers RunStats / summarize_final through the dispatcher hook and the regenerated exit table"]
